@@ -668,6 +668,13 @@ func (r *Request) do() (resp *Response, err error) {
 		} else {
 			resp, err = r.client.roundTrip(r)
 		}
+		// a wrapping round tripper may return a nil response, or an error it did not record
+		if resp == nil {
+			resp = &Response{Request: r}
+		}
+		if err != nil && resp.Err == nil {
+			resp.Err = err
+		}
 
 		// Determine if the error is from a canceled context.
 		// Store it here so it doesn't get lost when processing the AfterResponse middleware.
